@@ -148,7 +148,7 @@ CLAIMED = {
              "is_converged implies tolerance or limit. Bounded (labelled): check_for_initial_run is the disjunction of the "
              "controllers' flags and control_implementation, with ghost events, returns normally only when every controller "
              "reported convergence after the last control step and no control step follows the last power flow, levels in order "
-             "(lists unrolled: <= 3 levels x <= 2 controllers, max_iter = 2).",
+             "(lists unrolled: <= 3 levels x <= 2 controllers, max_iter = 2). TrafoController.initialize_control: direction coefficient, tap parameters and controlled bus are those of the current network (physical direction: a higher tap on the controlled side lowers the controlled voltage).",
         note="Assumed: read_from_net / write_to_net contracts; nothing_to_do False; well-formed band (lower <= upper). Not decided: "
              "the power flow itself, other controller classes, hunting detection; loops over controller lists only bounded."),
     "C16": dict(
@@ -158,7 +158,7 @@ CLAIMED = {
              "sign*PG <= max_p + delta, same for Q, for every point), setpoints PG/QG = sign * p/q * scaling, the result written back "
              "is sign * PG of the element's own row; gens: PG, VG, Q box, non-controllable gens fixed at p_mw and vm_pu; the voltage "
              "range of a gen bus is the intersection of the bus limits and the gen's own min_vm_pu / max_vm_pu (own bus, own values); "
-             "only the element's block of ppc['gen'] is written.",
+             "only the element's block of ppc['gen'] is written. DC OPF (opf_setup, DC model, with stubs for the model object): the two flow constraints of a rated branch are Bf Va <= RATE_A/S_base - Pfinj and -Bf Va <= RATE_A/S_base + Pfinj (limit on the flow including the phase-shift offset), exactly on the rated branches.",
         note="Assumed: A-SOLVE (the interior point solver returns a point of the box it is given), A-LOOKUP (block layout of "
              "ppc['gen']). Not decided: solver, branch loading / dcline / plain bus voltage constraints, DC OPF, power flow replay of "
              "the dispatch."),
@@ -174,7 +174,7 @@ CLAIMED = {
              "_update_q reports q = 0 for every machine that is not running (the Q-limit loop relies on it for the gens it has "
              "switched off). The "
              "Q-limit enforcement loop is only a bounded stand-in (native power flows on two fixed networks incl. a two-round "
-             "limiting cascade), labelled bounded.",
+             "limiting cascade), labelled bounded. DC power flow: the shunt / ward / xward results use 1 p.u. like the DC model.",
         note="Assumed: A-SOLVE (Newton keeps reference / PV voltages), A-LOOKUP, _sum_by_group (distinct keys with per-key sums). Not "
              "decided deductively: _run_ac_pf_with_qlims_enforced (needs a per-bus sum invariant), step characteristic tables of "
              "shunts, svc / ssc / vsc, trafo3w star losses, motors, asymmetric elements."),
@@ -183,7 +183,7 @@ CLAIMED = {
              "BR_R * V_N^2 / S_N is the ohmic value for every net.sn_mva (generic row); lemmas on the real branch_vectors: scaling "
              "series impedances by k and shunt admittances by 1/k (a change of the per-unit base) scales all four two-port "
              "admittances by 1/k; parallel = n gives n times the admittances of one line; a branch without tap changer is symmetric "
-             "under swapping its ends.",
+             "under swapping its ends. Table-level re-representations (row permutation, out-of-service elements incl. a line at an out-of-service bus, split loads, fused buses) only as a bounded native stand-in on one fixed network, labelled bounded.",
         note="Assumed: A-LOOKUP (index relabelling / row order is the assumed block layout, not proved), reals for floats. Not decided: "
              "splitting loads (per-bus sums), out-of-service elements, bus fusing through zero-impedance switches, per-unit "
              "conversion of transformers / impedances / wards."),
@@ -193,7 +193,7 @@ CLAIMED = {
              "re-derives, before the solver runs, every ppc part whose flag is set - for the branch flag the parameter function of "
              "every branch table present in the lookup (trafo, trafo3w, line), for all combinations of flags and tables; "
              "_check_output_writer_recyclability declares a result variable batch-readable only if OutputWriter.get_batch_outputs "
-             "records it (all result columns of res_bus / res_line / res_trafo / res_trafo3w / res_load / res_gen enumerated).",
+             "records it (all result columns of res_bus / res_line / res_trafo / res_trafo3w / res_load / res_gen enumerated). _evaluate_net: the cached network data of a diverged run is discarded before the repair run and before the next time step, with and without continue_on_divergence.",
         note="Assumed: which ppc part derives from which table (DOMAIN in the contract). Not decided: numerical batch reading "
              "(read_batch_results), only_v_results copying, other controller classes, the solver."),
     "C22": dict(
@@ -202,7 +202,7 @@ CLAIMED = {
              "transformers / three-winding transformers (codes l / t / t3) are selected for removal; proof for the generic row of the "
              "referencing tables on the real reindex_elements (line, trafo, trafo3w, gen, load): switch, measurement and cost "
              "references to re-indexed elements are mapped through the lookup, all others unchanged. The result-table index after "
-             "reindex_elements is the recorded known finding. Other edits: bounded stand-in (native edits of one fixed network).",
+             "reindex_elements is the recorded known finding. Other edits: bounded stand-in (native edits of one fixed network). drop_elements_simple also drops the measurements and cost rows of the dropped elements. The bounded native stand-in covers 12 edit operations incl. select_subnet and drop_inactive_elements with costs on several element types.",
         note="Assumed: pandas drop / set_index / .loc stores, get_indices = map through the lookup. Not decided deductively: fuse_buses, "
              "select_subnet, merge_nets, reindex_buses, replace_*, controller and characteristic references, group links in reindex."),
     "C26": dict(
@@ -211,7 +211,7 @@ CLAIMED = {
              "rows handed to add_edges are exactly the in-service elements (or all, if out-of-service ones are included) that no open "
              "switch of the element's code interrupts (trafo3w: at one of the edge's two buses), with the table's bus columns as end "
              "points and the element index as key; lines carry their length; bus-bus switches give an edge iff closed (or switches "
-             "are not respected); calc_distance_to_bus searches a multigraph built with the caller's options.",
+             "are not respected); calc_distance_to_bus searches a multigraph built with the caller's options. Every out-of-service bus that is a node of the graph is removed (unless include_out_of_service), whatever the number of nodes or nogobuses.",
         note="Assumed: add_edges adds one edge per in-service row; networkx (MultiGraph, Dijkstra). Not decided: connected_components, "
              "nogobuses / notravbuses, edge impedances, tcsc / dcline / vsc / line_dc edges, graph_tool back end."),
     "C01": dict(
@@ -221,7 +221,7 @@ CLAIMED = {
              "ZIP coefficients with PD_bus * ci_bus == sum p_l * ci_l and PD_bus * cz_bus == sum p_l * cz_l (same for q), so that the "
              "voltage dependent bus load is the sum of the loads' own ZIP terms for every voltage; _get_numba_functions selects the fast "
              "result routine pf_solution_single_slack (slack power = loads + branch losses) only when its precondition holds: one "
-             "machine, no voltage dependent loads, no distributed slack and GS == BS == 0 at every bus.",
+             "machine, no voltage dependent loads, no distributed slack and GS == BS == 0 at every bus. Also: _update_q / _update_p add the load of the machine's bus at the solved voltage (ZIP law) to the network injection; PD / QD of a node are the sums over the loads, sgens and storages whose bus maps to the node (node-indexed contract of _sum_by_group, fused buses included). Three listed known findings (ZIP coefficients scale all elements of the bus; ZIP coefficients per bus instead of per node; res_bus omits dcline terminals) with native replays; a bounded native stand-in (one network with dcline, storage, ward, shunt, gen) covers the bus elements outside the deductive part.",
         note="Assumed: linearity of finite sums (pyvc.sigma), _sum_by_group sums per bus, intersect1d / setdiff1d. Not decided: the nodal "
              "balance at ordinary buses (element result sums against branch flows, Newton mismatch), reactive split (_update_q), "
              "dcline terminals, FACTS, loads whose powers cancel at a bus (no per-bus coefficient can represent them)."),
@@ -229,7 +229,7 @@ CLAIMED = {
         text="Proof for the generic switch / bus (real text): create_bus_lookup re-derives net._impedance_bb_switches from the current "
              "switch table (closed bus-bus switch between in-service buses with z_ohm > 0) whatever value a previous calculation left "
              "in the attribute, on the numba and numpy paths; get_voltage_init_vector(init='results') returns a start vector without "
-             "NaN: the previous result where there is one, flat start otherwise, and does not write the result table.",
+             "NaN: the previous result where there is one, flat start otherwise, and does not write the result table. _powerflow: the conversion of every calculation (AC / DC, flat start / from results) starts from lookups created in that call -- no lookup of an earlier calculation survives.",
         note="Assumed: the bus fusing helpers compute from the current tables. Not decided: the remaining cached state (rebuilt by "
              "_pd2ppc, covered by the C08 frame contracts; recycling: C12; options: C34), convergence of Newton from a nearby start."),
     "C23": dict(
@@ -239,7 +239,7 @@ CLAIMED = {
              "r * length = rft_pu * Z_N (x alike), no capacitance, parallel 1 - the inverse mapping; the real "
              "replace_xward_by_internal_elements creates a series impedance whose physical value is the xward's r_ohm / x_ohm for every "
              "net.sn_mva, and load / shunt / gen with the xward's values; the real select_subnet returns a new net carrying f_hz of "
-             "its source.",
+             "its source. drop_inactive_elements / drop_out_of_service_elements only as a bounded native stand-in (one feeder with an open-ended cable and a stub line at an out-of-service bus), labelled bounded.",
         note="Assumed: the create functions store their arguments; the line pi model (C02). Not decided: ext_grid -> gen, ward "
              "replacement, merge_nets, the element selection of select_subnet, drop_inactive_elements, fuse_buses, "
              "merge_parallel_line, result / profile / group adaptation."),
@@ -248,7 +248,7 @@ CLAIMED = {
              "_calc_rx reads Zbus when inverse_y else ybus_fact, and the real _kappa_method_c hands it an equivalent-frequency copy "
              "whose Zbus / ybus_fact is the inverse / factorisation of that copy's own Ybus for both values of inverse_y (so the two "
              "options describe the same network). The IEC relations of the results (ikss, skss, 2ph/3ph ratio, ip) are only a bounded "
-             "stand-in (native calc_sc runs on one fixed meshed network), labelled bounded.",
+             "stand-in (native calc_sc runs on one fixed meshed network), labelled bounded. Network feeders (_add_ext_grid_sc_impedance, cases max / min): y * S_base with y (r + j x) = 1, |r + j x| = c / (s_sc / S_base), r / x = rx with the voltage factor of the feeder's own node; the admittances of all in-service ext_grids at a node are added once per node through the distinct keys of the grouping.",
         note="Assumed: scipy inv / factorized, makeYbus (C02). Not decided deductively: currents.py (2-D complex arrays), independence "
              "of sn_mva and of the set of faulted buses, kappa method B."),
     "C07": dict(
@@ -265,7 +265,7 @@ CLAIMED = {
              "slack contribution factor handed to the solver is the element's own slack_weight; with sums over the machines at a "
              "bus as linear functionals, the real _split_p_for_gens_at_same_bus gives every reference machine of a shared reference "
              "bus the deviation (p_bus - sum of setpoints) * w / sum(w) and leaves the PV gens at their setpoints. The equalisation "
-             "across buses by the Newton iteration is only a bounded stand-in (native runs on three fixed networks), labelled bounded.",
+             "across buses by the Newton iteration is only a bounded stand-in (native runs on three fixed networks), labelled bounded. _run_pf_algorithm: with distributed_slack the Newton-Raphson solver runs for every combination of bus types (the shortcut for networks of reference buses only ignores the weights).",
         note="Assumed: A-LOOKUP, linearity of finite sums. Not decided deductively: newtonpf with the slack variable, weight "
              "normalisation per island, xward result extraction."),
     "C21": dict(
@@ -273,7 +273,7 @@ CLAIMED = {
              "transformer / impedance, as a line only if it connects one voltage level and has tap ratio 0 or 1 and no phase shift "
              "(a branch with ratio or shift is never imported as a line); the created line has r * l = BR_R * Z_N, x alike, "
              "2 pi f c' 1e-9 l Z_N = BR_B and the branch status - the inverse of the per-unit line build (C02), so the round trip "
-             "reproduces the branch parameters.",
+             "reproduces the branch parameters. _from_ppc_gen: the created ext_grid / gen regulates to the VG of the ppc gen row it is created from (first-row-per-key theory for drop_duplicates; assumed contract of _gen_to_which: machines are the first gen rows of their buses).",
         note="Assumed: create_lines_from_parameters stores its arguments; the line pi model. Not decided: transformer and impedance "
              "parameters, buses / gens / costs, to_ppc (the C02-contracted _pd2ppc), MATPOWER files, the power flow equality itself."),
     "C27": dict(
